@@ -18,7 +18,7 @@
  *                                      normally the clock moves on by a pseudo-random 0..n seconds (a function of the call
  *                                      number).  Gives messages that arrive close together distinct birth and retry times.
  *
- * Scenario families generated here, after those of qsend.c (r = nrandom):
+ * Scenario families generated here, after those of qsend.c (r = nrandom; thorough tier, r >= 8000: r/4 and r/80):
  *   r/2  "deferred-queue" scenarios: 3-6 messages, mostly on one channel, arriving before, during and after the start-up scan,
  *        outcome scripts dominated by deferrals with some successes and failures (channel heaps of three and more entries with
  *        distinct due times, entries removed and re-inserted in many orders), ALRM/HUP/TERM both ways (sig= and intr=) at
@@ -148,7 +148,7 @@ int main(int argc, char **argv) {
   int shard = h_argi(argc, argv, 3, 0), nshards = h_argi(argc, argv, 4, 1);
   int thorough = nrandom >= 8000;
   char *line = malloc(4000);
-  int cnt[2] = { nrandom / 2, nrandom / 40 };
+  int cnt[2] = { thorough ? nrandom / 4 : nrandom / 2, thorough ? nrandom / 80 : nrandom / 40 };
   for (int f = 0, r = 0; f < 2; f++) for (int i = 0; i < cnt[f]; i++, r++) {
     if ((i + 7 + 3 * f) % nshards != shard) continue;
     h_seed(seed * 1000003ull + 500000000ull + r);
